@@ -271,7 +271,7 @@ theorem addV_typed (x y v : Val 𝕜) (hx : x.Typed) (hy : y.Typed) (h : addV x 
         rw [DType.promote_isComplex, Bool.or_eq_false_iff] at hr
         simp only [addM, star_add]
         rw [hx hr.1 i j hi hj, hy hr.2 i j hi hj]
-      · cases h
+      · split at h <;> cases h
 
 /-! ## `dot` and `@` -/
 
